@@ -107,7 +107,7 @@ Definition call_post (v : variant) (F : list byte) (curr : nat) (buf : list byte
               sdec v body = Some (decoded st' buf') /\ cinv v [] st' buf' /\ dmsg st' = Some (dlen st')
   | DMore => exists k, k <= length unread /\ dcurr st' = curr + k /\
               length buf' = length buf /\ skipn (dcurr st') buf' = skipn (dcurr st') buf /\
-              cinv v (F ++ firstn k unread) st' buf'
+              cinv v (F ++ firstn k unread) st' buf' /\ dmsg st' = None
   | _ => True
   end.
 
@@ -198,6 +198,7 @@ Proof.
   - (* more input needed *)
     split; [|exact I]. specialize (Hh (Hple eq_refl)).
     exists k. split; [exact Hk|]. split; [exact Hcurr'|]. split; [exact Hlen'|]. split; [exact Hsk'|].
+    split; [|reflexivity].
     unfold cinv. cbn [dpos dlen dcurr dmsg dcode dpos8]. split; [unfold curr', mlen'; lia|]. split; [lia|].
     destruct (hon_code_pos _ _ _ _ _ Hh) as [Hc1' _].
     destruct (Nat.eqb_spec (lcode r) 0); [lia|].
@@ -267,7 +268,7 @@ Proof.
     destruct (skipn (dcurr st) buf) as [|c rest0] eqn:Eun.
     - (* nothing to read *)
       split; [|exact I]. exists 0. cbn [length firstn]. split; [lia|]. split; [cbn [dcurr]; lia|].
-      split; [reflexivity|]. split; [reflexivity|].
+      split; [reflexivity|]. split; [reflexivity|]. split; [|cbn [dmsg]; exact Hm0].
       unfold cinv. cbn [dpos dlen dcurr dmsg dcode]. rewrite Hl0, Hm0, Hcu. cbn [Nat.eqb app].
       split; [unfold done2; unfold proc0 in Hpost; lia|]. split; [lia|]. auto.
     - destruct (Nat.eqb_spec (bn c) 0) as [Hz|Hnz]; [split; exact I|].
@@ -410,7 +411,7 @@ Proof.
         split; [apply frames_of_snoc; [assumption|assumption|apply (sdec_nozero v body _ Hsd)]|].
         split; [|assumption]. cbn [app].
         rewrite HI, (Hsplit k Hk Hcur Hsk). rewrite (app_assoc F), Hb. rewrite <- !app_assoc. reflexivity.
-      * destruct Hp as (k & Hk & Hcur & Hlen & Hsk & Hc').
+      * destruct Hp as (k & Hk & Hcur & Hlen & Hsk & Hc' & _).
         exists C, (F ++ firstn k unread). cbn [hs_msgs hs_stop hs_st hs_buf].
         split; [assumption|]. split; [|assumption].
         rewrite HI, (Hsplit k Hk Hcur Hsk) at 1. rewrite <- !app_assoc. reflexivity.
